@@ -4,38 +4,47 @@
 (* database with two keys of which one name extends the other ("a", "ab"), *)
 (* writers issuing plain and stale versioned writes, one arbiter session   *)
 (* that registers, disconnects, re-registers and resolves its i-th         *)
-(* outstanding notice.  Abstract state: arbiter status, queue length per   *)
-(* key, notices the connected arbiter holds.                               *)
+(* outstanding notice.  Abstract state: arbiter status, the unresolved     *)
+(* conflicts of every key by identity (oldest first), the notices the       *)
+(* connected arbiter holds -- so that resolving the newer of two queued     *)
+(* conflicts first leads to a different state than resolving the older.     *)
 (***************************************************************************)
 EXTENDS Integers, Sequences, FiniteSets, TLC, Json
 
-CONSTANTS Keys, MaxLen, MaxQueue
+CONSTANTS Keys, MaxLen, MaxQueue,
+          Switch    \* how many preceding actions distinguish states (n-switch coverage of the cases)
 
 VARIABLES arb,      \* "never" | "on" | "off"
-          q,        \* [Keys -> number of unresolved conflicts]
-          held,     \* notices the connected arbiter holds (sequence of keys)
+          open,     \* [Keys -> sequence of unresolved conflicts (ranks), oldest first]
+          held,     \* notices the connected arbiter holds (sequence of <<key, rank>>)
           gen,      \* arbiter session generation (a new session per registration)
           hist
 
-vars == <<arb, q, held, gen, hist>>
+vars == <<arb, open, held, gen, hist>>
+q == [k \in Keys |-> Len(open[k])]
 
-Init == arb = "never" /\ q = [k \in Keys |-> 0] /\ held = <<>> /\ gen = 0 /\ hist = <<>>
+Init == arb = "never" /\ open = [k \in Keys |-> <<>>] /\ held = <<>> /\ gen = 0 /\ hist = <<>>
 
 Log(r) == hist' = Append(hist, r)
+(* the last `Switch' actions of the history: part of the view, so that every transition is
+   generated after every possible sequence of `Switch' preceding actions *)
+Recent(h) == IF Len(h) <= Switch THEN h ELSE SubSeq(h, Len(h) - Switch + 1, Len(h))
 Sess == "arb" \o ToString(gen)
 
 RECURSIVE Unresolved(_, _)
 Unresolved(ks, acc) == IF ks = {} THEN acc
                        ELSE LET k == CHOOSE x \in ks : TRUE IN
-                            Unresolved(ks \ {k}, acc \o [i \in 1..q[k] |-> k])
+                            Unresolved(ks \ {k}, acc \o [i \in 1..q[k] |-> <<k, open[k][i]>>])
 
 (* a versioned write with a stale version, or any write to a key that is in conflict *)
 Write(k, stale) ==
   /\ Log([c |-> "w", op |-> IF stale THEN "set-safe" ELSE "set", k |-> k, stale |-> stale])
   /\ IF (stale \/ q[k] > 0) /\ arb # "never" /\ q[k] < MaxQueue
-     THEN /\ q' = [q EXCEPT ![k] = @ + 1]
-          /\ held' = IF arb = "on" THEN Append(held, k) ELSE held
-     ELSE UNCHANGED <<q, held>>
+     THEN \* the rank of a conflict: 1 = queued on a key without open conflicts, 2 = behind another
+          LET r == IF open[k] = <<>> THEN 1 ELSE open[k][Len(open[k])] + 1 IN
+          /\ open' = [open EXCEPT ![k] = Append(@, r)]
+          /\ held' = IF arb = "on" THEN Append(held, <<k, r>>) ELSE held
+     ELSE UNCHANGED <<open, held>>
   /\ UNCHANGED <<arb, gen>>
 
 Register ==
@@ -44,22 +53,22 @@ Register ==
   /\ hist' = Append(hist, [c |-> "arb" \o ToString(gen + 1), op |-> "arbiter"])
   /\ arb' = "on"
   /\ held' = Unresolved(Keys, <<>>)
-  /\ UNCHANGED q
+  /\ UNCHANGED open
 
 Disconnect ==
   /\ arb = "on"
   /\ Log([c |-> Sess, op |-> "close"])
   /\ arb' = "off" /\ held' = <<>>
-  /\ UNCHANGED <<q, gen>>
+  /\ UNCHANGED <<open, gen>>
 
 Resolve(i) ==
   /\ arb = "on" /\ i \in DOMAIN held
   /\ Log([c |-> Sess, op |-> "resolve_nth", nth |-> i - 1])
-  /\ q' = [q EXCEPT ![held[i]] = @ - 1]
+  /\ open' = [open EXCEPT ![held[i][1]] = SelectSeq(@, LAMBDA r : r # held[i][2])]
   /\ held' = [j \in 1..(Len(held) - 1) |-> IF j < i THEN held[j] ELSE held[j + 1]]
   /\ UNCHANGED <<arb, gen>>
 
-Read(k) == Log([c |-> "w", op |-> "get-safe", k |-> k]) /\ UNCHANGED <<arb, q, held, gen>>
+Read(k) == Log([c |-> "w", op |-> "get-safe", k |-> k]) /\ UNCHANGED <<arb, open, held, gen>>
 
 Next ==
   /\ Len(hist) < MaxLen
@@ -73,6 +82,6 @@ Spec == Init /\ [][Next]_vars
 QueueBounded == \A k \in Keys : q[k] >= 0 /\ q[k] <= MaxQueue
 HeldMatches == arb = "on" => Len(held) <= MaxQueue * Cardinality(Keys)
 
-View == <<arb, q, held>>
+View == <<arb, open, held, Recent(hist)>>
 Emit == PrintT(<<"CASE", ToJson(hist')>>)
 =============================================================================
